@@ -241,8 +241,8 @@ def obj_getattr_missing(ex, ptr, c, attr, node):
     ex.raise_('AttributeError', node)
 
 
-def field_fn(cls, attr, kind):
-    return z3.Function(f'fld_{cls}_{attr}', RefSort, kind_sort(kind))
+def field_fn(cls, attr, kind, epoch=0):
+    return z3.Function(f'fld_{cls}_{attr}' + (f'@{epoch}' if epoch else ''), RefSort, kind_sort(kind))
 
 
 OPAQUE_METHODS = {
@@ -273,7 +273,7 @@ def opaque_getattr(ex, base, attr, node):
             arr = ex.st.ghost.get(('field', cls, attr))
             if arr is not None:
                 return ex.unflat(z3.Select(arr, base.t), k)
-            return ex.unflat(field_fn(cls, attr, k)(base.t), k)
+            return ex.unflat(field_fn(cls, attr, k, ex.st.ghost.get('field_epoch', 0))(base.t), k)
         if s.tag == 'List':
             ek = flat_kind(s.args[0])
             seq = field_fn(cls, attr, ('seq', ek))(base.t)
@@ -340,7 +340,7 @@ def opaque_setattr(ex, base, attr, v, node):
             arr = ex.st.ghost.get(key)
             if arr is None:
                 r = z3.Const('r__', RefSort)
-                arr = z3.Lambda([r], field_fn(cls, attr, k)(r))
+                arr = z3.Lambda([r], field_fn(cls, attr, k, ex.st.ghost.get('field_epoch', 0))(r))
             ex.st.ghost[key] = z3.Store(arr, base.t, ex.flat(v, k))
             for ent in getattr(ex, '_wl_stack', []):
                 ent[0].add(-100)
